@@ -21,7 +21,9 @@ EXPLANATION = (
     "y0 + F h + G W plus tabled correction atoms only. R01.4: strong_order evaluated per (solver, noise type) from "
     "the constructors is <= the order established in the literature (frozen table). R02.4: Roessler order "
     "conditions on the imported tableaus. R02.3 (shared with C02): weight-1 condition of the Stratonovich RK-type steps and of "
-    "derivative-free Milstein (finite difference taken at one time). Not decided: the limit dt -> 0, error constants, "
+    "derivative-free Milstein (finite difference taken at one time). R02.6 (shared with C02): for a generic scalar SDE the "
+    "local mean-square error is O(h^(p+1/2)) and the local mean error O(h^(p+1)) at the advertised p -- the hypotheses "
+    "of Milstein's fundamental convergence theorem -- by symbolic stochastic Taylor expansion of each step. Not decided: the limit dt -> 0, error constants, "
     "adaptive accuracy."
 )
 
